@@ -187,9 +187,16 @@ class OsProxy:
         return f
     def rename(self, a, b):
         real_os.rename(a, b)
-        if PLAN.k == 4:
+        if PLAN.k in (4, 5):
             raise Crash()
     replace = rename
+    # k == 5: the process dies right after the first operation that REMOVES the head file (there is none in the sequence
+    # create temp / write / close / rename; if there is none the process dies after the rename, as for k == 4)
+    def remove(self, path, *a, **kw):
+        real_os.remove(path, *a, **kw)
+        if PLAN.k == 5 and isinstance(path, str) and not path.endswith('.tmp') and path.endswith('head.json'):
+            raise Crash()
+    unlink = remove
 
 def install_env():
     RL.time = fake_time
@@ -811,7 +818,7 @@ class Gen:
             return ('seekb', o, rng.choice([0, 0, self.last_ts, self.clock, rng.randint(0, self.clock + 5)]))
         if r < 0.96:
             if self.crash and rng.random() < self.crash:
-                return ('crash', 'B', rng.choice([0, 1, 2, 2, 2, 3, 4]), rng.choice([0, 1, 2]))
+                return ('crash', 'B', rng.choice([0, 1, 2, 2, 2, 3, 4, 5]), rng.choice([0, 1, 2]))
             return ('save', 'B' if rng.random() < 0.9 else 'A')
         if r < 0.98:
             # re-open in place (the previous incarnation is abandoned without close())
@@ -1068,6 +1075,50 @@ def main():
             run.violation(key, what + ' (timestamp with sub-microsecond digits; tell() then seek() on the same object)', dict(case=case))
         run.count('float-ts')
         run.seen(('float', name, repr(ops)), nontrivial=True)
+    # records of any size: 64 KiB and more, read record by record and by block (oracle only: the model would have to carry
+    # the bytes as Coq lists)
+    import tempfile, shutil
+    for mode in ('binl', 'txt', 'json', 'bin'):
+        root = tempfile.mkdtemp(prefix='verif_c13_big_')
+        try:
+            sizes = [10, 65535, 3, 65536, 65537, 1, 70001, 131073, 2] if mode != 'bin' else [65536, 70001]
+            recs = []
+            for n, sz in enumerate(sizes):
+                body = (('%d:' % n) + 'r' * sz)[:sz] if sz > 3 else 'x' * sz
+                recs.append(body.encode() if mode in ('bin', 'binl') else body if mode == 'txt' else {'n': n, 'pad': body})
+            CLOCK.us = 10 ** 12
+            wlog = RollLog(root, mode, file_size=10 ** 7, total_size=10 ** 9, utc=True)
+            for n, r in enumerate(recs):
+                CLOCK.us += 1000
+                wlog.write(r, CLOCK.us / 1_000_000)
+            for how in ('read', 'read_block'):
+                if mode == 'bin' and how == 'read':
+                    continue
+                rlog = RollLog(root, mode, rdonly=True, utc=True)
+                rlog.seek(('start', 0))
+                got = []
+                try:
+                    for _ in range(4 * len(recs)):
+                        x = rlog.read() if how == 'read' else rlog.read_block()
+                        if x is None or x == [] or x == b'':
+                            break
+                        got += x if how == 'read_block' and isinstance(x, list) else [x]
+                except Exception as e:      # noqa
+                    got.append('raised %r' % (e,))
+                want = recs if mode != 'bin' else [b''.join(recs)]
+                gotc = got if mode != 'bin' else [b''.join(g for g in got if isinstance(g, (bytes, bytearray)))]
+                if gotc != want:
+                    j = next((i for i in range(min(len(gotc), len(want))) if gotc[i] != want[i]), min(len(gotc), len(want)))
+                    run.violation('reader:torn:large-record mode=%s via=%s' % (mode, how),
+                                  '%d records of %s bytes written, %d returned; first difference at record %d (%s bytes written, %r... returned)'
+                                  % (len(want), sizes, len(gotc), j, sizes[j] if j < len(sizes) else '-', (str(gotc[j])[:40] if j < len(gotc) else None)),
+                                  dict(case=dict(mode=mode, sizes=sizes, via=how)))
+                rlog.close()
+                run.count('large-records:%s:%s' % (mode, how))
+                run.seen(('large', mode, how), nontrivial=True)
+            wlog.close()
+        finally:
+            shutil.rmtree(root, ignore_errors=True)
     for k, n in seen_keys.items():
         run.count('violation:' + k, n)
     run.rule = RULE
